@@ -4,3 +4,4 @@ import ChamProofs.Props.C02
 import ChamProofs.Props.C13
 import ChamProofs.Props.C01
 import ChamProofs.Props.C05
+import ChamProofs.Props.C08
